@@ -94,6 +94,20 @@ func validateBlock(state State, block *types.Block) error {
 			state.ChainID, state.LastBlockID, block.Height-1, block.LastCommit); err != nil {
 			return err
 		}
+		// VerifyCommit matches signatures to validators by position and never reads
+		// CommitSig.ValidatorAddress (it is not part of the sign bytes either), while
+		// MedianTime below weighs every timestamp by looking that address up. Require
+		// each non-absent signature to name the validator whose key verified it, so
+		// that the block time is the median weighted by the actual signers' power.
+		for i, commitSig := range block.LastCommit.Signatures {
+			if commitSig.Absent() {
+				continue
+			}
+			if want := state.LastValidators.Validators[i].Address; !bytes.Equal(commitSig.ValidatorAddress, want) {
+				return fmt.Errorf("wrong validator address in LastCommit signature #%d: expected %X, got %X",
+					i, want, commitSig.ValidatorAddress)
+			}
+		}
 	}
 
 	// NOTE: We can't actually verify it's the right proposer because we don't
